@@ -2,7 +2,7 @@
 """Regenerates /verif/MANIFEST.json from the table below (kept in one place so that it stays valid)."""
 import json, sys
 
-G1 = "explicit-state search (BFS with state deduplication) over step sequences of the real implementation under a controlled cooperative scheduler"
+G1 = "explicit-state search (BFS with state deduplication) over step sequences of the real implementation under a controlled cooperative scheduler: fine-grained steps (driver call, merger cycle, persister half-rounds, single critical sections as deviations) and, in a second search, whole persistence rounds as steps (reaches leveled partial compactions)"
 checks = {
  "C01": (G1, "4.1", "dump(Collection.Snapshot()) == reference ordered map in every reached state of every explored history x configuration"),
  "C02": (G1, "4.2", "every open snapshot / child snapshot / iterator / store snapshot is re-read after every later step and must still show what it showed when taken"),
@@ -18,7 +18,7 @@ checks = {
  "C12": ("exhaustive enumeration of round sequences x walk depth x revert target x continuation on the real store", "4.12", "walk == exposed history since last compaction then nil; revert == current == durable (reopen and power-cut image); next round builds on it"),
  "C13": (G1, "4.13", "map lower level applying every `higher` by the documented protocol; prefix / overlay / re-offer / drained oracles in every reached state"),
  "C14": ("small-scope exhaustive enumeration: key sets x index quota x minKeyBytes x probes (in-package and public path)", "4.14", "sorted-slice model and index-vs-no-index differential"),
- "C15": (G1, "4.15", "handles keep data readable; after closing everything in every order: no descriptor, no mapping, one data file"),
+ "C15": (G1 + "; plus exhaustive single-fault enumeration over the recorded file-operation trace of the compacting workloads with C15's oracle after everything is closed", "4.15 and 10.8", "handles keep data readable; after closing everything in every order, and at the end of every I/O fault plan: no descriptor, no mapping, one data file"),
  "C16": ("stateless DFS over thread interleavings (iterative preemption bounding) incl. Close, blocked writers, stalled persister", "4.16", "every fair completion returns every call; top never exceeds MaxPreMergerBatches; ErrClosed semantics"),
  "C17": ("stateless DFS over thread interleavings with the Go race detector as per-execution oracle (race-invisible scheduler hand-off, happens-before forwarding)", "4.17", "race detector report on any explored schedule"),
  "C18": ("exhaustive enumeration: directory states (all crash images + hand-listed) x options x driver sequences, ReadOnly open", "4.18", "directory fingerprint unchanged, no mutating file operation, content == writable open of a copy"),
